@@ -120,6 +120,15 @@ WHITELIST = [
     ("core/obs_coords.py", "ENUCoords.__sub__", "ENUCoords_sub", {"self": {"__class__": "ENUCoords", "E": "float", "N": "float", "U": "float"}, "p": {"__class__": "ENUCoords", "E": "float", "N": "float", "U": "float"}}, "object[ENUCoords]", {}),
     ("core/obs_coords.py", "ENUCoords.norm2D", "ENUCoords_norm2D", {"self": {"__class__": "ENUCoords", "E": "float", "N": "float"}}, "float", {}),
     ("core/obs_coords.py", "ENUCoords.distance2DTo", "ENUCoords_distance2DTo", {"self": {"__class__": "ENUCoords", "E": "float", "N": "float", "U": "float"}, "point": {"__class__": "ENUCoords", "E": "float", "N": "float", "U": "float"}}, "float", {}),
+    ("core/utils.py", "isnan", "isnan", {"number": "float"}, "bool", {}),
+    ("core/utils.py", "co_sum", "co_sum", {"tarray": "list[float]"}, "float", {"somme": "float"}, {"assume_identity": ["listify"]}),
+    ("core/utils.py", "co_min", "co_min", {"tarray": "list[float]"}, "float", {}, {"assume_identity": ["listify"]}),
+    ("core/utils.py", "co_max", "co_max", {"tarray": "list[float]"}, "float", {}, {"assume_identity": ["listify"]}),
+    ("core/utils.py", "co_count", "co_count", {"tarray": "list[float]"}, "int", {"count": "int"}, {"assume_identity": ["listify"]}),
+    ("core/utils.py", "co_avg", "co_avg", {"tarray": "list[float]"}, "float", {"mean": "float", "count": "int"},
+     {"assume_identity": ["listify"]}),
+    ("core/utils.py", "co_median", "co_median", {"tarray": "list[float]"}, "float",
+     {"tarray2": "list[float]", "tab_sort": "list[float]"}, {"assume_identity": ["listify"]}),
     ("core/raster.py", "Raster.getCell", "Raster_getCell",
      {"self": {"xmin": "float", "xmax": "float", "ymin": "float", "ymax": "float", "resolution": "tuple[float,float]",
                "nrow": "int", "ncol": "int"},
